@@ -2084,7 +2084,8 @@ fn root_main(w: Arc<World>) {
                     if live == i.cur_max {
                         i.stats.spawn_at_limit += 1;
                     }
-                    (i.cur_max, live > i.cur_max)
+                    // (while a despawn is joining threads it has already removed from the pool, those still count as alive here)
+                    (i.cur_max, live > i.cur_max && !i.despawn_in_progress)
                 });
                 if bad {
                     w2.fail("C17", "pool-exceeds-maximum", None, None, format!("a pool thread was created although {} are alive and the maximum is {}", live - 1, max));
@@ -2104,6 +2105,9 @@ fn root_main(w: Arc<World>) {
             i.root_stage = format!("phase {} root actions", pi);
         });
         for act in phase.root.iter() {
+            if phase.root_late && matches!(act, RootAct::Despawn) {
+                continue;
+            }
             match act {
                 RootAct::SetPool { n } => {
                     if (*n as usize) < rt::live_named(POOL_THREAD_NAME) {
@@ -2265,6 +2269,28 @@ fn root_main(w: Arc<World>) {
                 }
             }
         }
+        if phase.root_late {
+            // despawn while the callers of this phase are scheduling work
+            for act in phase.root.iter().filter(|a| matches!(a, RootAct::Despawn)) {
+                let _ = act;
+                for g in 0..case.cfg.gates as usize {
+                    w.open_gate(g);
+                }
+                vthread::yield_now();
+                w.with(|i| {
+                    i.root_stage = "despawn_threads_if_overloaded (concurrent with the callers)".to_string();
+                    i.despawn_in_progress = true;
+                    i.stats.concurrent_despawns += 1;
+                });
+                sched.despawn_threads_if_overloaded();
+                // (threads that were being joined counted as alive until here; the ones that exist now are owned by the pool)
+                let (live, max) = (rt::live_named(POOL_THREAD_NAME), sched_max(&w));
+                w.with(|i| i.despawn_in_progress = false);
+                if live > max {
+                    w.fail("C17", "despawn-left-too-many", None, None, format!("despawn_threads_if_overloaded returned with {} live pool threads, maximum {}", live, max));
+                }
+            }
+        }
         w.with(|i| i.root_stage = format!("phase {} wait for quiescence", pi));
         rt::wait_quiescent();
         oracle::phase_end(&w, pi, &handles);
@@ -2372,6 +2398,7 @@ pub fn run_case(case: &Case, opts: &RunOpts) -> Outcome {
         inline_consumers: vec![],
         panic_case: case_has_panic(&case),
         panic_clock: 0,
+        despawn_in_progress: false,
         quiet_panic_variant: case_has_panic(&case) && case.phases.len() == 1,
         root_released: false,
     };
